@@ -161,10 +161,11 @@ theorem C04_fresh (c : Cfg) (st : St) (op : Op) (hi : Inv st)
   · intro t ht he; subst he; exact Nat.lt_irrefl _ (hi.1 _ ht)
 
 /-- From issue to deletion every request bearing a live id is served in that session and answered with the same id
-    (requests 200, notifications and posted answers 202). The two exceptions are not requests served in a session:
-    a body that is neither request, notification nor answer (400) and a misplaced `notifications/initialized` (500). -/
+    (requests 200, notifications and posted answers 202). The exceptions are not requests served in a session:
+    a body that is neither request, notification nor answer (400: no id and no method, or an id with neither method nor
+    result nor error) and a misplaced `notifications/initialized` (500). -/
 theorem C04_bound (c : Cfg) (st : St) (s : Sid) (k : Kind) (hm : c.mode = .stateful) (hl : s ∈ st.live)
-    (hk : k ≠ .invalid) (hk2 : k ≠ .notifInitialized) :
+    (hk : k ≠ .invalid) (hk2 : k ≠ .notifInitialized) (hk3 : k ≠ .responseEmpty) :
     let o := (step c st (.post k (.sid s))).2
     (o.status = 200 ∨ o.status = 202) ∧ o.sid = some s ∧ (step c st (.post k (.sid s))).1.live = st.live := by
   cases k <;> simp_all [step, stepPost, postBody]
